@@ -259,7 +259,7 @@ Proof.
     { intros w1 P1 G1 pc'. pose proof P1 as (Q1 & Q2 & Q3 & Q4 & Q5).
       destruct (IH self k pc' w1 x G1) as [P2 G2]; try congruence; auto.
       split; [eapply pres_trans; eauto | exact G2]. }
-    destruct a as [v | | | v | v | c catch | c | c | v]; simpl.
+    destruct a as [v | | | v | v | c catch | c | c | v | | rr vv]; simpl.
     + destruct k; simpl; [split; [apply pres_refl | exact G] | apply KEEP; [apply pres_refl | exact G]].
     + split; [apply pres_refl | exact G].
     + split; [apply pres_refl | exact G].
@@ -272,7 +272,7 @@ Proof.
       destruct (add_log_ok w1 self (EvCall c o) G1 LK) as [P2 G2].
       destruct o as [v | e].
       * apply KEEP; [eapply pres_trans; eauto | exact G2].
-      * destruct catch.
+      * destruct (catch && catchable e).
         -- apply KEEP; [eapply pres_trans; eauto | exact G2].
         -- simpl. split; assumption.
     + destruct k; [| apply KEEP; [apply pres_refl | exact G]].
@@ -287,6 +287,11 @@ Proof.
     + unfold log_self. fold (getr w self). rewrite E, C, Nat.eqb_refl.
       assert (LK : logok (self, EvLog v true (st x) (secs x))) by (split; [reflexivity | exact SR]).
       destruct (add_log_ok w self _ G LK) as [P2 G2]. apply KEEP; assumption.
+    + split; [apply pres_refl | exact G].
+    + destruct k; [| apply KEEP; [apply pres_refl | exact G]].
+      destruct (H rr vv w G) as (P1 & G1 & _).
+      destruct (call_next rr vv w) as [w1 o]. simpl in P1, G1.
+      destruct o; simpl; split; assumption.
 Qed.
 
 (* ---- next -------------------------------------------------------------------- *)
@@ -417,8 +422,8 @@ Proof.
       { intros e K. destruct (add_log_ok w2 r e G2 K) as [_ GL].
         split; [exact GL | split; [exact C2 | split; [exact E2 | split; [exact M2 | split; [exact L2 | exact O2]]]]]. }
       destruct (iter x).
-      - destruct (nth_error (d_script d) (Nat.pred pc)) as [[] |]; try (split; [exact G2 | split; [exact C2 | split; [exact E2 | split; [exact M2 | split; [exact L2 | exact O2]]]]]).
-        apply LOGGED. exact I.
+      - destruct (nth_error (d_script d) (Nat.pred pc)) as [[] |]; try (split; [exact G2 | split; [exact C2 | split; [exact E2 | split; [exact M2 | split; [exact L2 | exact O2]]]]]);
+          apply LOGGED; exact I.
       - destruct (d_hasin d); [apply LOGGED; exact I | split; [exact G2 | split; [exact C2 | split; [exact E2 | split; [exact M2 | split; [exact L2 | exact O2]]]]]]. }
     destruct G2' as (G2' & C2' & E2' & M2' & L2' & O2').
     destruct (exec_ok call_next H (skipn pc (d_script d)) r Gen pc w2' x2 G2' C2' E2' eq_refl) as [P3 G3].
